@@ -150,7 +150,7 @@ fn exercise(rep: &mut Report, rng: &mut Rng, text: &str, rule: &tau_engine::Rule
     let maps: Vec<serde_yaml::Mapping> = docs.iter().map(to_yaml_map).collect();
     // a flat document that answers every addressed key literally, with arbitrary kinds
     let flat = FlatDoc { table: fields.iter().map(|f| (f.clone(), to_myval(&hostile_value(rng, 0)))).collect(), log: None };
-    let mut bad = |rep: &mut Report, stage: &str, p: &eng::Panic, sw: Option<Sw>, doc: Option<&DVal>| {
+    let bad = |rep: &mut Report, stage: &str, p: &eng::Panic, sw: Option<Sw>, doc: Option<&DVal>| {
         rep.violation(
             "panic",
             &format!("c03-panic:{}", p.sig()),
